@@ -31,8 +31,10 @@ def gen_history(rng, crc, pregrow=True):
         db = 2 if (two and rng.chance(1, 3)) else 1
         if r < 62:
             k = rng.choice(KEYS)
-            vl = rng.weighted([(0, 1), (5, 4), (20, 6), (100, 4), (700, 2), (4200 if crc & 2 else 1500, 1)] +
-                               ([(3000, 2), (1500, 1)] if crc & 2 else []))   # fits the 4 KB buffer, not what is left of it
+            # 4200: with the 4 KB buffer the payload bypasses the buffer; with the default buffer it is a WRITE record
+            # (and makes a segment) longer than the buffer of a recovering process opened with 4 KB
+            vl = rng.weighted([(0, 1), (5, 4), (20, 6), (100, 4), (700, 2), (4200, 1)] +
+                               ([(3000, 2), (1500, 1)] if crc & 2 else [(1500, 1)]))   # fits the 4 KB buffer, not what is left of it
             old = live.get((db, k), 0)
             if budget - vl + old < 0:
                 vl = 5
